@@ -57,9 +57,11 @@ def suite(wt):
 
 def main():
     for prop in sys.argv[1:]:
-        for d in sorted(glob.glob("/tmp/mutout-%s/[0-9]" % prop)):
+        rnd = os.environ.get("ROUND", "1")
+        root = "/tmp/mutout-%s" % prop if rnd == "1" else "/tmp/mutout%s-%s" % (rnd, prop)
+        for d in sorted(glob.glob(root + "/[0-9]")):
             k = os.path.basename(d)
-            sid = "%s-%s" % (prop, k)
+            sid = "%s-%s" % (prop, k) if rnd == "1" else "%s-r%s-%s" % (prop, rnd, k)
             out = "/verif/seeded/%s" % sid
             patch = os.path.join(d, "patch.diff")
             demos = glob.glob(os.path.join(d, "*_test.go"))
@@ -67,8 +69,8 @@ def main():
                 print(sid, "incomplete delivery"); continue
             if os.path.exists(os.path.join(out, "meta.json")) and json.load(open(os.path.join(out, "meta.json"))).get("confirmed"):
                 print(sid, "already confirmed"); continue
-            base = PINNED
-            bf = "/tmp/mutout-%s/BASE" % prop
+            base = PINNED if rnd == "1" else "b19de79"
+            bf = root + "/BASE"
             if os.path.exists(bf):
                 base = open(bf).read().strip()
             wt = "/tmp/wt-seed-%s" % sid
